@@ -13,6 +13,7 @@ import SpVerif.Model.PackProto
 import SpVerif.Model.RTreeIndex
 import SpVerif.Model.RTreeArr
 import SpVerif.Model.RTreeFill
+import SpVerif.Model.DaskJoinProto
 /-! Line-protocol driver: one operation per input line, one canonical output line each.
 Unknown or malformed operations print `bad-op` (never a default). -/
 open SpVerif SpVerif.Proto
@@ -34,7 +35,7 @@ def runOp : List V → Option String
   | [V.w "c2h2", V.i p, V.i a, V.i b] =>
     if p ≥ 1 ∧ a ≥ 0 ∧ b ≥ 0 then some (toString (Hilbert.dist2 p.toNat (a.toNat, b.toNat)))
     else Option.none
-  | vs => (GeomProto.run vs).orElse (fun _ => RTreeProto.run vs) |>.orElse (fun _ => Select.run vs) |>.orElse (fun _ => FramesProto.run vs) |>.orElse (fun _ => JoinProto.run vs) |>.orElse (fun _ => HDistProto.run vs) |>.orElse (fun _ => DaskProto.run vs) |>.orElse (fun _ => Pack.run vs) |>.orElse (fun _ => ActiveGeom.run vs) |>.orElse (fun _ => Parquet.run vs) |>.orElse (fun _ => Arrow.run vs) |>.orElse (fun _ => PackFS.run vs) |>.orElse (fun _ => PackProto.runOp vs) |>.orElse (fun _ => RTreeIndex.run vs) |>.orElse (fun _ => RTreeArr.run vs) |>.orElse (fun _ => RTreeFill.run vs)
+  | vs => (GeomProto.run vs).orElse (fun _ => RTreeProto.run vs) |>.orElse (fun _ => Select.run vs) |>.orElse (fun _ => FramesProto.run vs) |>.orElse (fun _ => JoinProto.run vs) |>.orElse (fun _ => HDistProto.run vs) |>.orElse (fun _ => DaskProto.run vs) |>.orElse (fun _ => Pack.run vs) |>.orElse (fun _ => ActiveGeom.run vs) |>.orElse (fun _ => Parquet.run vs) |>.orElse (fun _ => Arrow.run vs) |>.orElse (fun _ => PackFS.run vs) |>.orElse (fun _ => PackProto.runOp vs) |>.orElse (fun _ => RTreeIndex.run vs) |>.orElse (fun _ => RTreeArr.run vs) |>.orElse (fun _ => RTreeFill.run vs) |>.orElse (fun _ => DaskJoinProto.run vs)
 
 partial def loop (hin : IO.FS.Stream) (hout : IO.FS.Stream) : IO Unit := do
   let line ← hin.getLine
